@@ -317,6 +317,60 @@ Fixpoint canon_key (s : str) (up : bool) : str :=
 Definition header_get (h : list (str * str)) (name : str) : str :=
   match assoc (canon_key name true) h with Some v => v | None => [] end.
 
+(* ---------- string <-> []rune (Go's conversions; unicode/utf8) ----------
+   parse does s := []rune(format) and later string(s[:n]).  The decoder follows
+   utf8.DecodeRune: a byte that does not start a well-formed sequence (bad lead byte,
+   missing or out-of-range continuation: over-long forms, surrogates, > U+10FFFF) is ONE
+   rune U+FFFD of width 1.  Tested against Go on every generated format. *)
+Definition rune_error : N := 65533.
+Definition is_cont (b : N) : bool := (128 <=? b) && (b <=? 191).
+(* rune and width of the first rune of a non-empty string *)
+Definition decode1 (b0 : N) (t : str) : N * nat :=
+  if b0 <? 128 then (b0, 1%nat)
+  else if (194 <=? b0) && (b0 <=? 223) then
+    match t with
+    | b1 :: _ => if is_cont b1 then ((b0 - 192) * 64 + (b1 - 128), 2%nat) else (rune_error, 1%nat)
+    | _ => (rune_error, 1%nat)
+    end
+  else if (224 <=? b0) && (b0 <=? 239) then
+    match t with
+    | b1 :: b2 :: _ =>
+        let lo := if b0 =? 224 then 160 else 128 in
+        let hi := if b0 =? 237 then 159 else 191 in
+        if (lo <=? b1) && (b1 <=? hi) && is_cont b2
+        then ((b0 - 224) * 4096 + (b1 - 128) * 64 + (b2 - 128), 3%nat) else (rune_error, 1%nat)
+    | _ => (rune_error, 1%nat)
+    end
+  else if (240 <=? b0) && (b0 <=? 244) then
+    match t with
+    | b1 :: b2 :: b3 :: _ =>
+        let lo := if b0 =? 240 then 144 else 128 in
+        let hi := if b0 =? 244 then 143 else 191 in
+        if (lo <=? b1) && (b1 <=? hi) && is_cont b2 && is_cont b3
+        then ((b0 - 240) * 262144 + (b1 - 128) * 4096 + (b2 - 128) * 64 + (b3 - 128), 4%nat)
+        else (rune_error, 1%nat)
+    | _ => (rune_error, 1%nat)
+    end
+  else (rune_error, 1%nat).
+
+Fixpoint utf8_decode_fuel (fuel : nat) (s : str) : list N :=
+  match fuel, s with
+  | S f, b0 :: t => let '(r, w) := decode1 b0 t in r :: utf8_decode_fuel f (skipn (w - 1) t)
+  | _, _ => []
+  end.
+(* []rune(s): every step consumes at least one byte, so length s steps suffice *)
+Definition utf8_decode (s : str) : list N := utf8_decode_fuel (length s) s.
+
+(* utf8.EncodeRune; surrogates and values above U+10FFFF are written as U+FFFD *)
+Definition encode_rune (r : N) : str :=
+  if r <? 128 then [r]
+  else if r <? 2048 then [192 + r / 64; 128 + r mod 64]
+  else if ((55296 <=? r) && (r <=? 57343)) || (1114111 <? r) then [239; 191; 189]
+  else if r <? 65536 then [224 + r / 4096; 128 + (r / 64) mod 64; 128 + r mod 64]
+  else [240 + r / 262144; 128 + (r / 4096) mod 64; 128 + (r / 64) mod 64; 128 + r mod 64].
+(* string(runes) *)
+Definition utf8_encode (rs : list N) : str := flat_map encode_rune rs.
+
 (* ---------- the format lexer and parser (pattern.go:347-480) ---------- *)
 Inductive item := IText (s : str) | IHeader (name : str) | IField (f : fld).
 Inductive ityp := TText | TField | THeader.
@@ -328,7 +382,9 @@ Definition is_id_char (r : N) : bool :=
 
 Definition s_header : str := [36;104;101;97;100;101;114].   (* "$header" *)
 
-(* [s] is the whole input, [rest] = s[i:] *)
+(* [s] is the whole input as runes, [rest] = s[i:].  string(s[:i]) == "$header" is a
+   comparison of rune lists here: in state SField s[:i] is '$' followed by ASCII
+   identifier characters, which string() leaves as they are *)
 Fixpoint lex_loop (s : str) (st : lstate) (i : nat) (rest : str) : ityp * nat :=
   match rest with
   | [] => match st with
@@ -354,7 +410,8 @@ Fixpoint lex_loop (s : str) (st : lstate) (i : nat) (rest : str) : ityp * nat :=
 Definition lex (s : str) : ityp * nat := lex_loop s SStart 0 s.
 
 (* error kinds: 1 = invalid field, 2 = empty log format (logger.New) *)
-Fixpoint parse_loop (fuel : nat) (s : str) (acc : list item) : outcome (list item) :=
+(* [s] is a []rune; the item values are strings again: val := string(s[:n]) *)
+Fixpoint parse_loop (fuel : nat) (s : list N) (acc : list item) : outcome (list item) :=
   match s with
   | [] => Ok (rev acc)
   | _ =>
@@ -362,7 +419,8 @@ Fixpoint parse_loop (fuel : nat) (s : str) (acc : list item) : outcome (list ite
       | O => Err 98
       | S f =>
           let '(typ, n) := lex s in
-          do val <- lg_upto s n;
+          do vr <- lg_upto s n;
+          let val := utf8_encode vr in
           do s' <- lg_from s n;
           match typ with
           | TText => parse_loop f s' (IText val :: acc)
@@ -374,7 +432,9 @@ Fixpoint parse_loop (fuel : nat) (s : str) (acc : list item) : outcome (list ite
           end
       end
   end.
-Definition parse (format : str) : outcome (list item) := parse_loop (length format) format [].
+(* s := []rune(format) *)
+Definition parse (format : str) : outcome (list item) :=
+  let s := utf8_decode format in parse_loop (length s) s [].
 
 Definition new_logger (format : str) : outcome (list item) :=
   do p <- parse format;
@@ -412,6 +472,18 @@ Definition pattern_write := pattern_write_with render_field.
 Definition log_line := log_line_with render_field.
 (* the logger as it was before 1da7601 / bb1b4e7 *)
 Definition log_line_unrepaired := log_line_with render_field_unrepaired.
+
+(* ---------- proxy.responseWriter (http_proxy.go:283-302) ----------
+   what ServeHTTP puts into the event: rw.code = the value of the LAST WriteHeader call
+   (0 when there was none: then nothing is logged), rw.size = the sum of the Write
+   results *)
+Inductive rwcall := RwHeader (code : Z) | RwWrite (n : Z).
+Definition rw_step (st : Z * Z) (c : rwcall) : Z * Z :=
+  match c with
+  | RwHeader code => (code, snd st)
+  | RwWrite n => (fst st, (snd st + n)%Z)
+  end.
+Definition rw_run (calls : list rwcall) : Z * Z := fold_left rw_step calls (0, 0)%Z.
 
 (* ====================== specification side ====================== *)
 
